@@ -2,7 +2,8 @@
 //! Same history machinery as C08, but batches carry arbitrary subsets of the C13 name pool (case pairs,
 //! non-ASCII, > 64 bytes, names sorting before / after all others, the catalogue's own column names) and the
 //! table names are exotic too.  After every step: `SELECT *` per table (columns sorted by name), the table
-//! catalogue and every column catalogue as sorted multisets (duplicates stay visible).
+//! catalogue and every column catalogue as sorted multisets (duplicates stay visible), and
+//! `LocustDB::search_column_names(t, ".*")` per table.
 #[path = "store/common.rs"]
 mod store_common;
 use store_common::*;
@@ -20,6 +21,7 @@ fn main() {
         return;
     }
     quiet_panics();
+    DUMP_SEARCH.store(true, std::sync::atomic::Ordering::Relaxed);
     let mut rng = Rng::new(args.seed);
     let mut cases = Cases::create(&args.out);
     let null_loss = probe_null_loss();
